@@ -16,47 +16,68 @@ Lemma decode_sl f sl : sl < 1024 ->
   N.lor (N.shiftl (N.land (f * 16 + sl / 256) 3) 8) (sl mod 256) = sl.
 Proof. intros H. rewrite land3, be_join by lia. lia. Qed.
 
-(* ---- shape of a serialised payload ---- *)
-Definition pre_of (s : section) : bytes :=
-  [0; 0; flags s * 16 + section_length s / 256; section_length s mod 256] ++ hdr s.
-Lemma payload_shape s rest :
-  ser_payload s rest = pre_of s ++ concat (map ser_entry (entries s)) ++ (crc s ++ rest).
-Proof. unfold ser_payload, ser_section, pre_of. cbn [app]. rewrite <- !app_assoc. reflexivity. Qed.
-Lemma len_pre_of s : length (hdr s) = 5%nat -> len (pre_of s) = 9.
-Proof. intros H. unfold pre_of, len. rewrite app_length, H. reflexivity. Qed.
+(* ---- shape of a serialised payload with pointer_field k: the pointer byte, k filler bytes, the section, the rest.
+        `ser_payload s rest` is the case k = 0 (`ser_payload_pf0`) ---- *)
+Lemma ser_payload_pf0 s rest : ser_payload s rest = ser_payload_pf 0 [] s rest.
+Proof. reflexivity. Qed.
+Definition sec_pre (s : section) : bytes :=
+  [0; flags s * 16 + section_length s / 256; section_length s mod 256] ++ hdr s.
+Definition pre_of (k : N) (filler : bytes) (s : section) : bytes := (k :: filler) ++ sec_pre s.
+Lemma payload_shape k filler s rest :
+  ser_payload_pf k filler s rest = pre_of k filler s ++ concat (map ser_entry (entries s)) ++ (crc s ++ rest).
+Proof. unfold ser_payload_pf, ser_section, pre_of, sec_pre. cbn [app]. rewrite <- !app_assoc. reflexivity. Qed.
+Lemma len_pre_of k filler s : length (hdr s) = 5%nat -> len filler = k -> len (pre_of k filler s) = 9 + k.
+Proof. intros H L. unfold pre_of, sec_pre. rewrite !plen_app, plen_cons, L. unfold len. cbn [length]. rewrite H. lia. Qed.
 Lemma len_entries es : len (concat (map ser_entry es)) = 4 * len es.
 Proof. induction es as [|e es IH]; [reflexivity|]. cbn [map concat]. rewrite plen_app, IH, plen_cons.
   unfold ser_entry, len. cbn [length]. lia. Qed.
-Lemma len_payload s rest : wf_section s ->
-  len (ser_payload s rest) = 13 + 4 * len (entries s) + len rest.
-Proof. intros (_ & Hh & _ & _ & Hc & _). rewrite payload_shape, !plen_app, len_pre_of, len_entries by exact Hh.
-  unfold len at 2. rewrite Hc. lia. Qed.
+Lemma len_section s : wf_section s -> len (ser_section s) = 12 + 4 * len (entries s).
+Proof. intros (_ & Hh & _ & _ & Hc & _). unfold ser_section. rewrite !plen_app, len_entries.
+  unfold len. cbn [length]. rewrite Hh, Hc. lia. Qed.
+Lemma len_payload k filler s rest : wf_section s -> len filler = k ->
+  len (ser_payload_pf k filler s rest) = 13 + k + 4 * len (entries s) + len rest.
+Proof. intros W L. unfold ser_payload_pf. rewrite plen_cons, !plen_app, len_section, L by exact W. lia. Qed.
 
-(* ---- SectionLength ---- *)
-Lemma section_length_ok s rest : wf_section s ->
-  PatPsi.section_length (ser_payload s rest) = Ok (section_length s).
-Proof. intros W. pose proof (len_payload s rest W) as L. destruct W as (Hf & Hh & _ & _ & _ & _ & Hsl).
-  unfold PatPsi.section_length, PatPsi.at_section, PatPsi.pointer_field.
-  assert (E0 : (len (ser_payload s rest) =? 0) = false) by (apply N.eqb_neq; lia). rewrite E0.
-  unfold ser_payload at 1. unfold idx at 1. cbn [N.to_nat nth_error bind].
-  assert (E1 : (len (ser_payload s rest) <=? 1 + 0) = false) by (apply N.leb_gt; lia). rewrite E1.
-  unfold ser_payload. rewrite slice_from_1. cbn [bind].
-  unfold PatPsi.section_length_sec.
-  assert (E3 : (len (ser_section s ++ rest) <? 3) = false).
-  { apply N.ltb_ge. unfold ser_payload in L. rewrite plen_cons in L. lia. }
-  rewrite E3. unfold ser_section. cbn [app]. rewrite idx1. cbn [bind]. rewrite idx2. cbn [bind]. f_equal. apply decode_sl. exact Hsl. Qed.
+Section Payload.
+Variables (k : N) (filler : bytes) (s : section) (rest : bytes).
+Hypothesis W : wf_section s.
+Hypothesis Hk : k < 256.
+Hypothesis Lf : len filler = k.
+Let pay := ser_payload_pf k filler s rest.
+
+Lemma len_pay : len pay = 13 + k + 4 * len (entries s) + len rest.
+Proof. apply len_payload; assumption. Qed.
+
+(* ---- PointerField, SectionLength ---- *)
+Lemma pointer_field_ok : PatPsi.pointer_field pay = Ok k.
+Proof. unfold PatPsi.pointer_field. pose proof len_pay as L.
+  assert (E0 : (len pay =? 0) = false) by (apply N.eqb_neq; lia). rewrite E0. reflexivity. Qed.
+
+Lemma section_length_ok : PatPsi.section_length pay = Ok (section_length s).
+Proof.
+  pose proof len_pay as L. pose proof (len_section s W) as Ls. destruct W as (Hf & Hh & _ & _ & _ & _ & Hsl).
+  unfold PatPsi.section_length, PatPsi.at_section. rewrite pointer_field_ok. cbn [bind].
+  assert (E1 : (len pay <=? 1 + k) = false) by (apply N.leb_gt; lia). rewrite E1.
+  unfold pay, ser_payload_pf.
+  replace (k :: filler ++ ser_section s ++ rest) with ((k :: filler) ++ ser_section s ++ rest) by reflexivity.
+  replace (1 + k) with (len (k :: filler)) by (rewrite plen_cons, Lf; reflexivity).
+  rewrite slice_from_app. cbn [bind]. unfold PatPsi.section_length_sec.
+  assert (E3 : (len (ser_section s ++ rest) <? 3) = false) by (apply N.ltb_ge; rewrite plen_app, Ls; lia).
+  rewrite E3. unfold ser_section. cbn [app]. rewrite idx1. cbn [bind]. rewrite idx2. cbn [bind]. f_equal.
+  apply decode_sl. exact Hsl.
+Qed.
 
 (* ---- NumPrograms ---- *)
-Lemma num_programs_ok s rest : wf_section s ->
-  num_programs (ser_payload s rest) = Ok (Z.of_nat (length (entries s))).
-Proof. intros W. unfold num_programs, num_programs_with. rewrite section_length_ok by exact W. cbn [bind].
-  rewrite zlen_len, len_payload by exact W. unfold section_length.
-  assert (E : (Z.of_N (13 + 4 * len (entries s) + len rest) <? Z.of_N (5 + 4 * len (entries s) + 4))%Z = false)
+Lemma num_programs_ok : num_programs pay = Ok (Z.of_nat (length (entries s))).
+Proof. unfold num_programs. rewrite section_length_ok, pointer_field_ok. cbn [bind].
+  rewrite zlen_len, len_pay. unfold section_length.
+  assert (E : (Z.of_N (13 + k + 4 * len (entries s) + len rest) - Z.of_N k <? Z.of_N (5 + 4 * len (entries s) + 4))%Z = false)
     by (apply Z.ltb_ge; lia).
   rewrite E. f_equal.
   replace (Z.of_N (5 + 4 * len (entries s) + 4) - 2 - 1 - 1 - 1 - 4)%Z with (Z.of_nat (length (entries s)) * 4)%Z
     by (unfold len; lia).
   apply Z.quot_mul. lia. Qed.
+End Payload.
 
 (* ---- ProgramMap ---- *)
 Definition step (m : list (N * N)) (e : entry) : list (N * N) :=
@@ -81,12 +102,11 @@ Proof. induction es as [|e es IH]; intros pre post counter m Hc W; [reflexivity|
   rewrite IH; [reflexivity| |exact W'].
   rewrite plen_app. unfold ser_entry, len at 2. cbn [length]. lia. Qed.
 
-Lemma program_map_ok s rest : wf_section s ->
-  program_map (ser_payload s rest) = Ok (model_map (entries s)).
-Proof. intros W. unfold program_map, program_map_with. fold (num_programs (ser_payload s rest)).
-  rewrite num_programs_ok by exact W. cbn [bind]. rewrite Nat2Z.id.
+Lemma program_map_ok k filler s rest : wf_section s -> k < 256 -> len filler = k ->
+  program_map (ser_payload_pf k filler s rest) = Ok (model_map (entries s)).
+Proof. intros W Hk Lf. unfold program_map. rewrite pointer_field_ok, num_programs_ok by assumption. cbn [bind]. rewrite Nat2Z.id.
   rewrite payload_shape. destruct W as (_ & Hh & _ & We & _).
-  apply loop_ok; [rewrite len_pre_of by exact Hh; reflexivity|exact We]. Qed.
+  apply loop_ok; [rewrite len_pre_of by assumption; lia|exact We]. Qed.
 
 (* the association list the model builds, read as a finite map *)
 Definition lookup (m : list (N * N)) (p : N) : option N :=
@@ -144,20 +164,19 @@ Proof. unfold lookup. induction m as [|[a b] m IH]; intros Hd Hin; [contradictio
   destruct (N.eqb_spec a p) as [->|Hne]; [|exact (IH Hd' Hin)].
   exfalso. apply Hn. apply in_map_iff. exists (p, x). split; [reflexivity|exact Hin]. Qed.
 
-Lemma program_map_spec s rest : wf_section s ->
-  exists m, program_map (ser_payload s rest) = Ok m /\ NoDup (map fst m) /\
+Lemma program_map_spec k filler s rest : wf_section s -> k < 256 -> len filler = k ->
+  exists m, program_map (ser_payload_pf k filler s rest) = Ok m /\ NoDup (map fst m) /\
             forall p x, In (p, x) m <-> map_lookup (entries s) p = Some x.
-Proof. intros W. exists (model_map (entries s)). split; [apply program_map_ok; exact W|].
+Proof. intros W Hk Lf. exists (model_map (entries s)). split; [apply program_map_ok; assumption|].
   split; [apply model_map_nodup|]. intros p x. rewrite <- model_map_lookup. split.
   - apply in_lookup. apply model_map_nodup.
   - apply lookup_in. Qed.
 
 (* ---- SPTSpmtPID ---- *)
-Lemma spts_ok s rest : wf_section s ->
-  spts_pmt_pid (ser_payload s rest) = match spts (entries s) with Some x => Ok x | None => Err E.Other end.
-Proof. intros W. unfold spts_pmt_pid, spts_pmt_pid_with.
-  fold (num_programs (ser_payload s rest)). fold (program_map (ser_payload s rest)).
-  rewrite num_programs_ok, program_map_ok by exact W. cbn [bind].
+Lemma spts_ok k filler s rest : wf_section s -> k < 256 -> len filler = k ->
+  spts_pmt_pid (ser_payload_pf k filler s rest) = match spts (entries s) with Some x => Ok x | None => Err E.Other end.
+Proof. intros W Hk Lf. unfold spts_pmt_pid.
+  rewrite num_programs_ok, program_map_ok by assumption. cbn [bind].
   destruct (entries s) as [|e [|e2 es]].
   - reflexivity.
   - cbn [length spts model_map fold_left]. unfold step.
@@ -167,21 +186,21 @@ Proof. intros W. unfold spts_pmt_pid, spts_pmt_pid_with.
   - cbn [spts]. assert (E : (1 <? Z.of_nat (length (e :: e2 :: es)))%Z = true) by (apply Z.ltb_lt; cbn [length]; lia).
     rewrite E. reflexivity. Qed.
 
-Lemma spts_iff s rest x : wf_section s ->
-  (spts_pmt_pid (ser_payload s rest) = Ok x <-> exists e, entries s = [e] /\ pn e <> 0 /\ pid e = x).
-Proof. intros W. rewrite spts_ok by exact W. destruct (entries s) as [|e [|e2 es]]; cbn [spts].
+Lemma spts_iff k filler s rest x : wf_section s -> k < 256 -> len filler = k ->
+  (spts_pmt_pid (ser_payload_pf k filler s rest) = Ok x <-> exists e, entries s = [e] /\ pn e <> 0 /\ pid e = x).
+Proof. intros W Hk Lf. rewrite spts_ok by assumption. destruct (entries s) as [|e [|e2 es]]; cbn [spts].
   - split; [discriminate|]. intros (e & H & _). discriminate.
   - destruct (N.eqb_spec (pn e) 0) as [Hz|Hnz].
     + split; [discriminate|]. intros (e' & [= <-] & Hn & _). contradiction.
     + split; [intros [= <-]; eauto|]. intros (e' & [= <-] & _ & <-). reflexivity.
   - split; [discriminate|]. intros (e' & H & _). discriminate. Qed.
-Lemma spts_fails s rest : wf_section s ->
-  (forall x, spts_pmt_pid (ser_payload s rest) <> Ok x) -> spts_pmt_pid (ser_payload s rest) = Err E.Other.
-Proof. intros W H. rewrite spts_ok in * by exact W. destruct (spts (entries s)); [exfalso; eapply H; reflexivity|reflexivity]. Qed.
+Lemma spts_fails k filler s rest : wf_section s -> k < 256 -> len filler = k ->
+  (forall x, spts_pmt_pid (ser_payload_pf k filler s rest) <> Ok x) -> spts_pmt_pid (ser_payload_pf k filler s rest) = Err E.Other.
+Proof. intros W Hk Lf H. rewrite spts_ok in * by assumption. destruct (spts (entries s)); [exfalso; eapply H; reflexivity|reflexivity]. Qed.
 
 (* ---- NewPAT on payload bytes ---- *)
-Lemma new_pat_payload s rest : wf_section s -> len (ser_payload s rest) <> 188 ->
-  new_pat (ser_payload s rest) = Ok (ser_payload s rest).
-Proof. intros W H188. unfold new_pat. pose proof (len_payload s rest W) as L.
-  assert (E1 : (len (ser_payload s rest) <? 13) = false) by (apply N.ltb_ge; lia). rewrite E1.
-  assert (E2 : (len (ser_payload s rest) =? 188) = false) by (apply N.eqb_neq; exact H188). rewrite E2. reflexivity. Qed.
+Lemma new_pat_payload k filler s rest : wf_section s -> len filler = k -> len (ser_payload_pf k filler s rest) <> 188 ->
+  new_pat (ser_payload_pf k filler s rest) = Ok (ser_payload_pf k filler s rest).
+Proof. intros W Lf H188. unfold new_pat. pose proof (len_payload k filler s rest W Lf) as L.
+  assert (E1 : (len (ser_payload_pf k filler s rest) <? 13) = false) by (apply N.ltb_ge; lia). rewrite E1.
+  assert (E2 : (len (ser_payload_pf k filler s rest) =? 188) = false) by (apply N.eqb_neq; exact H188). rewrite E2. reflexivity. Qed.
